@@ -195,6 +195,13 @@ func (c *Check) ProcFor(label string, n int, input []byte, f func(input []byte, 
 		if err != nil {
 			// a child that died without a dump: the code under test killed the process (fatal
 			// error, SIGSEGV on a stale mapping, os.Exit): report as a violation candidate.
+			if strings.HasPrefix(errs[k], "spawn:") {
+				// the harness could not START a worker (scratch space, descriptors, ...): an
+				// infrastructure failure, never a statement about the code under test
+				fmt.Printf("HARNESS-ERROR ProcFor %s share %d/%d: %s\n", label, k, procs, errs[k])
+				c.NotExhaustive("a worker process could not be started: " + errs[k])
+				continue
+			}
 			c.Violate("worker-process-died", fmt.Sprintf("ProcFor %s share %d/%d: %s", label, k, procs, errs[k]), "worker process died", "worker completes")
 			continue
 		}
